@@ -9,7 +9,7 @@ Arguments mem_step : simpl never.
 
 (** a store whose base 0 is a MemoryFS, and the instance that talks to it directly *)
 Definition mstore (s : mstate) (hs : list hstate) (lg : list (nat * fscall)) (ft : option (nat * nat)) : store :=
-  mkStore [BMem s] hs lg ft.
+  mkStore [BMem s] hs lg ft IoOff.
 Definition mv : vfs := mkVfs 0 (fun c => Call (BFs 0 c) Ret).
 
 (** the abstraction function: forget timestamps *)
@@ -329,7 +329,7 @@ Section RefineHandles.
     (mstore s (<[h := HMemWriter 0 dest (fst (cursor_write buf pos data)) (snd (cursor_write buf pos data))]> hs) lg ft,
      Ok (N.of_nat (length data))).
   Proof.
-    intros Hh Hd. unfold handle_op. cbn [st_handles mstore]. rewrite Hh. cbn [put].
+    intros Hh Hd. rewrite handle_op_no_io by reflexivity. unfold handle_op0. cbn [st_handles mstore]. rewrite Hh. cbn [put].
     destruct data as [|b data]; [congruence|]. destruct (cursor_write buf pos (b :: data)) as [buf' pos']. reflexivity.
   Qed.
 
@@ -338,7 +338,7 @@ Section RefineHandles.
     exists s', handle_op h HDrop (mstore s hs lg ft) = (mstore s' (<[h := HClosed]> hs) lg ft, Ok tt) /\
                abs s' = spec_publish (abs s) dest buf /\ wf s'.
   Proof.
-    intros Hwf Hh. unfold handle_op. cbn [st_handles mstore]. rewrite Hh.
+    intros Hwf Hh. rewrite handle_op_no_io by reflexivity. unfold handle_op0. cbn [st_handles mstore]. rewrite Hh.
     exists (fst (msec_sem (MPublish dest buf) s)). split; [reflexivity|].
     apply (refine_publish s dest buf Hwf).
   Qed.
@@ -348,7 +348,7 @@ Section RefineHandles.
     exists s', handle_op h HFlush (mstore s hs lg ft) = (mstore s' hs lg ft, Ok tt) /\
                abs s' = spec_publish (abs s) dest buf /\ wf s'.
   Proof.
-    intros Hwf Hh. unfold handle_op. cbn [st_handles mstore]. rewrite Hh.
+    intros Hwf Hh. rewrite handle_op_no_io by reflexivity. unfold handle_op0. cbn [st_handles mstore]. rewrite Hh.
     exists (fst (msec_sem (MPublish dest buf) s)). split; [reflexivity|].
     apply (refine_publish s dest buf Hwf).
   Qed.
